@@ -140,7 +140,7 @@ def encrypt_mid_canon(cb, ca):
 # ---------------------------------------------------------------------------------------------------------------
 # recording
 # ---------------------------------------------------------------------------------------------------------------
-def record(vh, plan, rec, seed, wd, steps=0):
+def _record_once(vh, plan, rec, seed, wd, steps=0):
     name = "P%dR%d" % (plan, rec)
     d = os.path.join(wd, name)
     live, base, tmp = os.path.join(d, "live"), os.path.join(d, "base"), os.path.join(d, "tmp")
@@ -163,6 +163,21 @@ def record(vh, plan, rec, seed, wd, steps=0):
     r.san = driver._parse_san_logs(d)
     shutil.rmtree(tmp, ignore_errors=True)
     return r
+
+
+def record(vh, plan, rec, seed, wd, steps=0):
+    """A syscall log the replayer cannot interpret unambiguously is re-recorded before the run is declared inconclusive."""
+    last = None
+    for attempt in range(3):
+        try:
+            return _record_once(vh, plan, rec, seed, wd, steps)
+        except Inconclusive as e:
+            last = e
+            if "unusable" not in str(e):
+                raise
+            shutil.rmtree(os.path.join(wd, "P%dR%d" % (plan, rec)), ignore_errors=True)
+            shutil.rmtree(os.path.join(wd, "P%dR%d" % (plan, rec), "live.side"), ignore_errors=True)
+    raise last
 
 
 def load_recording(plan, rec, d, root, side=None):
